@@ -11,6 +11,7 @@ from props import c01, c03
 
 FILES = ["gen/Gen_core.v", "Model_core.v", "Model_minerals.v", "Proofs_core.v", "Proofs_total.v", "Proofs_minerals.v", "Proofs_flow.v", "Proofs_path.v",
          "Proofs_rhs.v", "Inst_core.v", "Entry_core.v", "Extract_core.v"]
+FILES += [f for f in MT.GLUE_TIE_FILES if f not in FILES]   # tie T of the glue model
 PROP = "Properties/C07.v"
 
 
@@ -67,10 +68,10 @@ def null_history_fails(h, kf=None):
 
 
 def run(chk):
-    ok, br = proofs.prove(chk, FILES, PROP, groups=("core",), gen_modules=("core",))
+    ok, br = proofs.prove(chk, FILES, PROP, groups=("core",), gen_modules=MT.GLUE_TIE_GEN)
     import pydrex
     import pydrex.core as core
-    chk.cov["trusted_base"] = common.TRUSTED_COMMON + [
+    chk.cov["trusted_base"] = common.TRUSTED_COMMON + [MT.GLUE_TIE_TRUSTED,
         "regime dispatch: Model_core.derivs tied to the generated derivatives (symbolic regime ordinal) by instance lemmas; update/rhs model tied by trace validation",
         "NOT proved: that LSODA returns a state block unchanged when its derivative is identically zero (true of linear multistep methods; observed bit-exactly on every run)",
     ]
